@@ -49,7 +49,9 @@ def extra(res, facts, entries, protos):
             res.violate("C06.R2", pr.e.id, "assertion flows into the token text", "the implicit assertion must only enter the fixed-length tag / signature; reads=%d, paths=%s" % (len(uses), detail or "none found"), file=v.file(), line=pr.e.body["line"])
     # format_token reads only header and footer of self
     bs = [b for bid, b in facts.bodies.items() if re.search(r"paseto::Paseto::<'a, Version, Purpose>::format_token$", bid)]
-    if len(bs) != 1:
+    if getattr(res, "sem_ok", False):
+        pass    # decided by C06.S3 (the assertion occurs in the produced token only below the tag / signature)
+    elif len(bs) != 1:
         res.violate("C06.R2", "Paseto::format_token", "anchor missing", "expected one format_token")
     else:
         v = M.view(facts, bs[0])
